@@ -2,6 +2,7 @@ package sim
 
 import (
 	"encoding/json"
+	"math/big"
 	"time"
 
 	sdk "github.com/pokt-network/posmint/types"
@@ -9,6 +10,8 @@ import (
 	govTypes "github.com/pokt-network/posmint/x/gov/types"
 	posTypes "github.com/pokt-network/posmint/x/pos/types"
 )
+
+const SecondDenom = "abc"
 
 var GenesisTime = time.Unix(1600000000, 0).UTC()
 
@@ -22,8 +25,10 @@ var AllParamKeys = []string{
 }
 
 type GenAccount struct {
-	Actor   *Actor
-	Balance int64
+	Actor      *Actor
+	Balance    int64
+	BalanceBig *big.Int // overrides Balance (amounts beyond int64)
+	Extra      int64    // amount of the second denomination "abc"
 }
 type GenValidator struct {
 	Actor *Actor
@@ -48,17 +53,31 @@ func coins(n int64) sdk.Coins { return sdk.NewCoins(sdk.NewCoin(Denom, sdk.NewIn
 // Σ account coins + Σ genesis stake (pos.InitGenesis funds the pool without touching supply).
 func (g GenesisConfig) AppState() []byte {
 	var accs authTypes.Accounts
-	total := int64(0)
+	total := new(big.Int)
+	extra := int64(0)
 	for _, a := range g.Accounts {
-		accs = append(accs, authTypes.NewBaseAccount(a.Actor.Addr, coins(a.Balance), a.Actor.Pub))
-		total += a.Balance
+		bal := big.NewInt(a.Balance)
+		if a.BalanceBig != nil {
+			bal = a.BalanceBig
+		}
+		cs := sdk.NewCoins(sdk.NewCoin(Denom, sdk.NewIntFromBigInt(bal)))
+		if a.Extra > 0 {
+			cs = cs.Add(sdk.NewCoins(sdk.NewInt64Coin(SecondDenom, a.Extra)))
+			extra += a.Extra
+		}
+		accs = append(accs, authTypes.NewBaseAccount(a.Actor.Addr, cs, a.Actor.Pub))
+		total.Add(total, bal)
 	}
 	var vals []posTypes.Validator
 	for _, v := range g.Validators {
 		vals = append(vals, posTypes.NewValidator(v.Actor.Addr, v.Actor.Pub, sdk.NewInt(v.Stake)))
-		total += v.Stake
+		total.Add(total, big.NewInt(v.Stake))
 	}
-	ags := authTypes.GenesisState{Params: g.AuthParams, Accounts: accs, Supply: coins(total)}
+	supply := sdk.NewCoins(sdk.NewCoin(Denom, sdk.NewIntFromBigInt(total)))
+	if extra > 0 {
+		supply = supply.Add(sdk.NewCoins(sdk.NewInt64Coin(SecondDenom, extra)))
+	}
+	ags := authTypes.GenesisState{Params: g.AuthParams, Accounts: accs, Supply: supply}
 	pgs := posTypes.DefaultGenesisState()
 	pgs.Params = g.PosParams
 	pgs.Validators = vals
